@@ -47,6 +47,54 @@ SEEDS = {
         "protocol version other than 4, the NCP answering getValue(FREE_BUFFERS) with an error status, and more than four failures in total separated by successes"),
     "C20-closed-check-after-coroutine": ("C20", "the closed-loop guard of ThreadsafeProxy moved behind the coroutine branch",
         "a coroutine method called through the proxy from another loop after the owner's loop was closed: RuntimeError instead of a dropped call"),
+    # ---- round 2 (each agent was also told what the round-1 change for its property was and asked for a different mechanism)
+    "C01b-timeouts-counted-separately": ("C01", "_send_data_frame gives up on `timeouts >= ACK_TIMEOUTS` (timeouts counted separately from NAKs) while the loop is still bounded by attempts: the loop can fall through and send_data() returns normally without any ACK",
+        "all five transmissions of one frame fail with a mix: at least one NAK (detectable corruption) and the last attempt an ACK timeout (loss), e.g. corrupt, drop, drop, drop, drop"),
+    "C02b-escape-run-collapses": ("C02", "_unstuff_bytes tests for ESCAPE first with an early continue: a run of escape bytes collapses, `7D 7D 5E` decodes to `7E`",
+        "a frame containing an escape sequence with one or more extra 0x7D bytes right next to its escape byte, the rest intact so the CRC of the collapsed bytes matches"),
+    "C03b-randomize-first-128": ("C03", "the randomisation table shortened to 128 bytes and the per-byte XOR replaced by a masked whole-field integer XOR: bytes from offset 128 are not randomised",
+        "a DATA payload of 129..200 bytes compared against an independent encoder / a real NCP"),
+    "C04b-rstack-keeps-counters": ("C04", "the frame-number reset moved from rstack_frame_received to send_reset: an RSTACK the host did not ask for no longer restarts numbering",
+        "an unsolicited RSTACK while the expected frame number is not 0, then DATA(0) from the restarted NCP"),
+    "C05b-ack-window-no-wrap": ("C05", "_handle_ack iterates the pending frames with `0 < ack_num - frm_num <= TX_K`: the modulo-8 on the distance is lost",
+        "at least 8 sends since the last RSTACK: the send numbered 7 is acknowledged by ackNum 0, treated as stale, repeated five times and the healthy link fails"),
+    "C06b-release-without-acquire": ("C06", "`async with semaphore(priority)` de-sugared into try/acquire/finally/release with the acquire inside the try: a caller cancelled while queued releases a slot it never held",
+        "command A in flight, caller B queued behind it and cancelled while queued, a further caller waiting or arriving before A completes"),
+    "C07b-bool-missing-true": ("C07", "Bool._missing_ maps every non-zero undefined byte to Bool.true",
+        "a response / callback Bool field carrying a byte 0x02..0xFF, encoded independently of the library's own serialisers"),
+    "C08b-inherited-frame-ids": ("C08", "COMMANDS_BY_ID built per class in __init_subclass__ and merged with the parent version's table: a version also answers to frame ids it deleted",
+        "protocol version 6 or 8..14 and a frame carrying a frame id that only an older version defines (optionally with the sequence number of a pending command)"),
+    "C09b-reset-future-done-unchecked": ("C09", "Gateway.reset_received no longer checks `.done()` of the reset / start-up futures",
+        "two RSTACK frames handled in one loop iteration while a reset is pending (duplicated RSTACK, or zigbeed's late start-up RSTACK back to back with the answer); fatal on socket:// transports"),
+    "C10b-failed-state-dedup": ("C10", "AshProtocol._enter_failed_state returns early when the state is already FAILED",
+        "a first failure before the application registered its callback (only logged), no RSTACK in between, then an ERROR frame after registration: never reported"),
+    "C11b-counters-zeroed-at-request": ("C11", "frame counters zeroed in send_reset instead of on RSTACK",
+        "DATA traffic between the RST being written and the RSTACK arriving (a queued host command, or an in-flight NCP callback), or an unsolicited RSTACK"),
+    "C12b-fresh-tag-on-retry": ("C12", "send_packet draws a fresh message tag for every retry but keeps waiting on the first (destination, tag)",
+        "at least one busy status followed by an accepted retry, and a confirmation carrying the tag that was actually sent"),
+    "C13b-repeat-aps-filter": ("C13", "_handle_frame drops a callback whose (message type, sender, APS counter) equals the previously delivered one",
+        "two consecutive deliverable callbacks on one running application sharing type, sender and APS counter (everything else may differ)"),
+    "C14b-tc-partner-overwritten": ("C14", "write_network_info sets tc_link_key.partner_ieee = node_info.ieee unconditionally",
+        "EZSP v9+ with the rewritable EUI64 token, a supplied node address different from the adapter's, and a supplied trust-centre address that is unknown or different: flag and address in the security state are wrong (read-back unaffected)"),
+    "C15b-resubscribe-after-failed-unsubscribe": ("C15", "subscribe's already-subscribed test additionally requires a non-zero endpoint in the cached entry (which a failed unsubscribe left at 0)",
+        "subscribe, an unsubscribe of that group rejected or timed out, then subscribe again: a second table slot is written / INVALID_INDEX"),
+    "C16b-buffer-count-before-overrides": ("C16", "the move-the-packet-buffer-count-last block moved in front of the user-override loop",
+        "a user override (not None) for a setting that has no built-in default in the running version: it is appended after the buffer count"),
+    "C17b-listener-after-init": ("C17", "_ensure_network_running registers the NETWORK_UP listener only after the init command has answered",
+        "the NETWORK_UP event arriving before the init response, or in the same read right after it"),
+    "C18b-undefined-unified-to-fail": ("C18", "the isinstance pass-through of from_ember_status replaced by identity entries in SL_STATUS_MAP for the defined members only",
+        "a unified (32-bit) status that bellows' enum does not define: converted to FAIL"),
+    "C19b-feed-counter-after-read": ("C19", "the watchdog feed counter is advanced only after a successful counter read",
+        "a protocol version other than 4, a tolerated failure at or before a counter-clear boundary, and a run reaching the boundary"),
+    "C20b-raw-method-on-owner-loop": ("C20", "__getattr__ returns the raw bound method when looked up on the owner's loop",
+        "the attribute looked up on the owner's loop and the resulting callable invoked from another thread's loop"),
+}
+
+# checks run against each change besides the one of the property it breaks
+ALSO = {
+    "C01b-timeouts-counted-separately": ["C05"], "C02b-escape-run-collapses": ["C03"], "C03b-randomize-first-128": ["C02"],
+    "C04b-rstack-keeps-counters": ["C11"], "C05b-ack-window-no-wrap": ["C01"], "C09b-reset-future-done-unchecked": ["C10", "C11"],
+    "C10b-failed-state-dedup": ["C05"], "C11b-counters-zeroed-at-request": ["C04"],
 }
 
 
